@@ -88,8 +88,14 @@ def _init_worker(modname):
   global _MODULE
   _MODULE = importlib.import_module(modname)
   signal.signal(signal.SIGALRM, _alarm)
+  limit_memory()
+
+
+def limit_memory():
   try:
-    lim = 6 << 30
+    # 16 workers x 3 GiB stay below the machine's memory, so that a case that allocates without
+    # end meets MemoryError (reported as a violation of that case) before the kernel kills a worker
+    lim = int(float(os.environ.get("VERIF_WORKER_GB", "3")) * (1 << 30))
     resource.setrlimit(resource.RLIMIT_AS, (lim, lim))
   except Exception:
     pass
@@ -212,6 +218,25 @@ class Run(object):
       self.pool.join()
       self.pool = None
 
+  def _guarded(self, results):
+    """Iterate pool results, but notice a worker that died (killed by the kernel, crashed
+    interpreter): multiprocessing would wait for its lost task for ever."""
+    if self.pool is None:
+      for item in results:
+        yield item
+      return
+    pids = set(p.pid for p in self.pool._pool)
+    while True:
+      try:
+        yield results.next(timeout=10)
+      except StopIteration:
+        return
+      except mp.TimeoutError:
+        now = set(p.pid for p in self.pool._pool if p.exitcode is None)
+        if not pids <= now:
+          raise RuntimeError("a worker process died (killed or crashed) while running kind cases; "
+                             "its case cannot be identified - re-run with VERIF_WORKERS=1")
+
   def run_kind(self, kname, cases=None, quiet=False):
     kind = self.module.KINDS[kname]
     t0 = time.time()
@@ -228,7 +253,7 @@ class Run(object):
     else:
       results = self.get_pool().imap_unordered(_work, jobs)
     nsamp = 0
-    for _, agg in results:
+    for _, agg in self._guarded(results):
       st["evaluations"] += agg["n"]
       st["nontrivial"] |= agg["nontrivial"]
       st["outcomes"].update(agg["outcomes"])
@@ -384,6 +409,7 @@ def replay(module, path, quiet=False):
     art = json.load(f)
   kind = module.KINDS[art["kind"]]
   signal.signal(signal.SIGALRM, _alarm)
+  limit_memory()     # a case that allocates without end must meet MemoryError here too
   r = run_one(kind, _tuplify(from_json(art["case"])))
   obs = None if r.viol is None else {"key": r.viol["key"],
                                      "observed": r.viol["observed"]}
